@@ -95,11 +95,19 @@ VARIANTS = [
     ("v30", "", "    a = Int(1, default=9)\n    b = Int(2)\n"),
     ("v31", "", "    a = Int(1)\n    b = Int(2).aligned(4)\n"),
     ("v32", "", "    a = Int(1)\n    b = Int(2).aligned(8)\n"),
+    # generated texts that are permutations of one another, the differences mirrored around the middle: equal length, equal
+    # byte multiset, equal position-weighted sums - what a checksum weaker than a cryptographic hash cannot tell apart
+    ("v33", "", "    a = Int(2)\n    b = Int(4)\n    c = Int(4)\n    d = Int(2)\n"),
+    ("v34", "", "    a = Int(4)\n    b = Int(2)\n    c = Int(2)\n    d = Int(4)\n"),
+    ("v35", "", "    a = Int(1)\n    b = Int(8)\n    c = Int(8)\n    d = Int(1)\n"),
+    ("v36", "", "    a = Int(8)\n    b = Int(1)\n    c = Int(1)\n    d = Int(8)\n"),
 ]
+MIRRORED = ["v33", "v34", "v35", "v36"]
 PARAMS = ["v%d" % i for i in range(18, 33)]
 # groups whose members must differ in what the probes observe (checked by `check selftest` on the unchanged tree)
 MUST_DIFFER = [["v1", "v2", "v3", "v4", "v5", "v11", "v12", "v13", "v14"], ["v15", "v16", "v17"], ["v18", "v19", "v20"], ["v21", "v22"],
-               ["v23", "v24"], ["v25", "v26"], ["v27", "v28"], ["v29", "v30"], ["v31", "v32"], ["v1", "v18", "v21", "v23", "v25", "v29"]]
+               ["v23", "v24"], ["v25", "v26"], ["v27", "v28"], ["v29", "v30"], ["v31", "v32"], ["v1", "v18", "v21", "v23", "v25", "v29"],
+               ["v33", "v34", "v35", "v36"]]
 VNAMES = [v[0] for v in VARIANTS]
 VBY = {v[0]: v for v in VARIANTS}
 
@@ -128,7 +136,8 @@ PROBE_RAWS = [b"", b"\x00", b"\x01", b"\xff", b"\x01\x02", b"\x80\x00", b"\x01\x
               b"\x80\x81\x82", b"\x02ab", b"\x03ab", b"\x01\x02\x03\x04", b"\x00\x00\x00\x00", b"\xf0\x0f\xaa\x55",
               b"\x04abcd", b"\x02abcd", b"\x01\x02\x03\x04\x05", b"\x05abcde", b"\x01\x02\x03\x04\x05\x06",
               b"\xff\xff\xff\xff\xff\xff", b"\x80\x00\x00\x80\x00\x01", b"\x06abcdef", b"\x7f\x80\x7f\x80\x7f\x80",
-              b"ab;cd,e", b"a,b;c", b"\x01\x02\x03\x04\x05\x06\x07\x08", b"\x02.......\x11\x12", b"\x01...\x21\x22..\x31\x32"]
+              b"ab;cd,e", b"a,b;c", b"\x01\x02\x03\x04\x05\x06\x07\x08", b"\x02.......\x11\x12", b"\x01...\x21\x22..\x31\x32",
+              bytes(range(1, 13)), bytes(range(1, 19)), bytes(range(0x81, 0x95))]
 PROBE_VALS = [(0, 0), (1, 2), (255, 255), (127, 128), (-1, -1), (256, 1), (1, 65535), (65535, 70000)]
 
 
@@ -376,8 +385,16 @@ class World:
         if self.kill_at is not None and proc.label == self.kill_target:
             n = proc.opcount
             proc.opcount += 1
-            k, j = self.kill_at
+            k, j = self.kill_at[0], self.kill_at[1]
+            e = self.kill_at[2] if len(self.kill_at) > 2 else 0
             if (n == k and j == 0) or (n == k + 1 and j > 0):
+                if e:
+                    # enumeration of failing calls: this call fails (a write: after its first j bytes), the process goes on
+                    proc.io_errors += 1
+                    self.out.stats["fault:io-error-" + errno.errorcode[e]] += 1
+                    SEAM.log(proc, "%s %s -> %s (injected%s: the call fails, the process goes on)" % (
+                        kind, SEAM.norm(rel), errno.errorcode[e], ", after %d bytes" % j if j else ""))
+                    raise OSError(e, os.strerror(e))
                 proc.dead = True
                 self.out.stats["fault:torn-write" if j > 0 else "fault:crash-before-op"] += 1
                 SEAM.log(proc, "KILLED before %s %s" % (kind, SEAM.norm(rel)))
@@ -789,13 +806,13 @@ def _draw_spec(ch, label="defs"):
 
 
 SAME_SIZE = ["v1", "v2", "v3", "v4", "v5"]      # their generated modules have the same length: the most confusable
-GROUPS = [SAME_SIZE, ["v15", "v16", "v17"], ["v1", "v6", "v7", "v8", "v9", "v10"], VNAMES, PARAMS]
+GROUPS = [SAME_SIZE, ["v15", "v16", "v17"], ["v1", "v6", "v7", "v8", "v9", "v10"], VNAMES, PARAMS, MIRRORED]
 HOME = [None]          # the group this run favours (drawn once per run by _home_group)
 
 
 def _home_group(ch):
     """swarm style: a run concentrates on one set of mutually confusable declarations"""
-    HOME[0] = GROUPS[ch.weighted("home-group", [5, 2, 1, 3, 3])]
+    HOME[0] = GROUPS[ch.weighted("home-group", [5, 2, 1, 3, 3, 1])]
 
 
 def _draw_variant(ch, label):
@@ -830,7 +847,7 @@ class CacheSeqEngine(CacheEngineBase):
     chunks = {"quick": 20, "thorough": 250}
     rule = ("each case is a Chooser-generated history of 2..8 steps over one scratch project: DEFINE (a fresh simulated process, or "
             "one that is still alive, executes defs.py / defs_x.py as it is on disk; bytecode caching on or off per process), EDIT "
-            "(defs.py rewritten to 1-3 same-named declarations out of a family of 32 confusable variants, optionally the colliding "
+            "(defs.py rewritten to 1-3 same-named declarations out of a family of 36 confusable variants, optionally the colliding "
             "x_Foo), TICK (storage clock stays / +1..3 s / steps back), JANITOR (delete .py only, .pyc only, the whole __pkts__, touch, "
             "restore an older copy with its old mtime); every mutating file call additionally draws a clock tie / step. distinct = "
             "digest of the abstract step list; non-trivial = at least two DEFINEs of different declaration lists and a cache file "
@@ -1073,7 +1090,7 @@ class CacheConcEngine(CacheEngineBase):
     chunks = {"quick": 20, "thorough": 250}
     rule = ("each case is one simulated run: a drawn prior cache state (empty, or left by a fault-free process that defined another "
             "declaration list, with or without bytecode), then 2-3 simulated processes executing defs.py (1-3 same-named "
-            "declarations out of 32 confusable variants) concurrently - every file-system call is a yield point where the Chooser "
+            "declarations out of 36 confusable variants) concurrently - every file-system call is a yield point where the Chooser "
             "picks who runs next, whether the clock ties/steps, whether the process dies there (<=2 deaths, writes cut at "
             "chosen byte offsets so that death leaves torn files) and, in a quarter of the runs, whether the call fails with an "
             "errno it can meet on a healthy system (<=3 failing calls: ENOSPC/EDQUOT/EIO/EACCES/EMFILE/EROFS/ENOLCK) - then 1-2 later fault-free processes, possibly after an edit. "
@@ -1241,7 +1258,7 @@ class CacheConcEngine(CacheEngineBase):
 
     def extra_phase(self, tier, seed, pool, tree, scratch):
         pairs = self.enum_pairs(tier)
-        tot = {"crash_points": 0, "distinct_crash_states": 0, "later_definitions_checked": 0}
+        tot = {"crash_points": 0, "failing_calls": 0, "distinct_crash_states": 0, "later_definitions_checked": 0}
         viols = []
         samples = []
         for r in pool.map(_enum_job, [(i, a, b, level) for i, (a, b, level) in enumerate(pairs)]):
@@ -1255,13 +1272,14 @@ class CacheConcEngine(CacheEngineBase):
         return {"crash_point_enumeration": dict(tot, scenarios=len(pairs), exhaustive_over=(
                     "for each enumerated (prior cache state, declaration) scenario: death before every file-system call of the "
                     "cache update and after every enumerated byte prefix of every write (all prefixes where byte level is 'all', "
-                    "first/last/middle/every 97th otherwise), each followed by a fresh fault-free process per later declaration "
-                    "(the same, the prior one, a same-size sibling)"), samples=samples),
+                    "first/last/middle/every 97th otherwise), and FAILURE of every such call with every errno it can meet (writes: also after "
+                    "1, half and all but one of their bytes; the victim then carries on and is checked too), each followed by a fresh "
+                    "fault-free process per later declaration (the same, the prior one, a same-size sibling)"), samples=samples),
                 "exhaustive_crash_points": True, "violations": viols}
 
     def enum_pair(self, idx, a, b, level):
         """all crash points of: [prior process defines a] ; victim defines b and dies at point p ; later process defines c"""
-        res = {"crash_points": 0, "distinct_crash_states": 0, "later_definitions_checked": 0, "violations": [], "sample": None}
+        res = {"crash_points": 0, "failing_calls": 0, "distinct_crash_states": 0, "later_definitions_checked": 0, "violations": [], "sample": None}
         base = {"mode": "enum", "prior": a, "prior_bytecode": bool(idx % 2), "victim": b}
         # learn the victim's file-system calls from an undisturbed run
         out = Outcome()
@@ -1274,13 +1292,28 @@ class CacheConcEngine(CacheEngineBase):
                 L = int(info.split("B")[0])
                 js = range(1, L) if level == "all" else sorted({1, L - 1, L // 2} | set(range(97, L, 97)))
                 points.extend((k, j) for j in js if 0 < j < L)
+        # ... and every way each of those calls can FAIL instead (the victim then carries on through its error handling)
+        for k, (_, kind, rel, info) in enumerate(ops):
+            for e in io_errnos_for(kind):
+                points.append((k, 0, e))
+                if kind == "write":
+                    L = int(info.split("B")[0])
+                    points.extend((k, j, e) for j in sorted({1, L // 2, L - 1}) if 0 < j < L)
         later = [b] + ([a] if a and a != b else []) + ([{"v1": "v2", "v2": "v1", "v3": "v2", "v4": "v1", "v5": "v1"}.get(b)] if b in ("v1", "v2", "v3", "v4", "v5") else [])
         seen_states = set()
-        for (k, j) in points:
-            res["crash_points"] += 1
+        for pt in points:
+            k, j = pt[0], pt[1]
+            res["crash_points" if len(pt) == 2 else "failing_calls"] += 1
             out = Outcome()
-            sc = dict(base, kill_at=[k, j])
-            world, _ = self._enum_world(out, sc, None)
+            sc = dict(base, kill_at=list(pt))
+            world, vic = self._enum_world(out, sc, None)
+            if len(pt) == 3:
+                # the victim itself went on: whatever it defined must be its own declaration's code (it may have failed to define)
+                v = self.check_proc(world, vic, "C16")
+                if v is not None:
+                    res["violations"].append({"run": idx, "scenario": sc, "draws": {}, "violation": {"oracle": v[0], "actor": v[1], "detail": v[2]},
+                                              "events": out.events[-100:], "event_digest": out.event_digest()})
+                    return res
             state = (_pkts_listing(world.root), self._mtimes(world.root))
             if state in seen_states:
                 continue                 # same directory state as an earlier crash point: same continuations
@@ -1289,7 +1322,7 @@ class CacheConcEngine(CacheEngineBase):
             snap = self._snapshot(world.root)
             clock = SEAM.clock
             for c in later:
-                sc = dict(base, kill_at=[k, j], later=c)
+                sc = dict(base, kill_at=list(pt), later=c)
                 out2 = Outcome()
                 v = self._enum_later(out2, sc, snap, clock)
                 res["later_definitions_checked"] += 1
@@ -1375,7 +1408,15 @@ class CacheConcEngine(CacheEngineBase):
 
     def _execute_enum(self, scenario, ch):
         out = Outcome()
-        v = self._enum_later(out, scenario, None, None)
+        if "later" not in scenario:
+            # a victim whose call was made to fail and who carried on: it is the one checked
+            world, vic = self._enum_world(out, scenario, None)
+            world.out = out
+            v = self.check_proc(world, vic, "C16")
+            SEAM.current = None
+            SEAM.root = None
+        else:
+            v = self._enum_later(out, scenario, None, None)
         if v is not None:
             out.violation = {"oracle": v[0], "actor": v[1], "detail": v[2]}
             out.events.append("VIOLATION %s: %s" % (v[0], v[2]))
